@@ -35,8 +35,11 @@ def run(tier, replay_file=None):
     import random as _r
     rng = _r.Random(common.seed())
     h4b = [h for h in h4 if h[0]["bk"] > 0 and h[0]["bt"] != ""]
+    # two scenarios of one manager in ONE file, exactly one of them with its own points, no base points: the sibling keeps the model's
+    h4c = [h for h in h4 if h[0]["bt"] == "" and sorted(x["tab"] for x in h[1:]) == ["", "C"]]
     h4 = h4b if not quick else rng.sample(h4b, min(14, len(h4b)))
-    h3 = h4 + h3
+    h4c = h4c if not quick else rng.sample(h4c, min(8, len(h4c)))
+    h3 = [(h, "split") for h in h4] + [(h, "single") for h in h4c] + [(h, ("split", "single")[i % 2]) for i, h in enumerate(h3)]
     R.cov["dict_channel_histories"], R.cov["registration_combinations"], R.cov["file_channel_histories"] = len(h1), len(h2), len(h3)
     ops = {}
     for hist in h1 + h2:
@@ -52,14 +55,15 @@ def run(tier, replay_file=None):
     # a first batch of file histories runs one per fresh process (process-wide state in bptk can mask file-reading faults)
     import json, os, subprocess, sys, tempfile
     from concurrent.futures import ThreadPoolExecutor
-    nfresh = len(h4) + (4 if quick else 40)
-    def fresh_proc(hist):
+    nfresh = len(h4) + len(h4c) + (4 if quick else 40)
+    def fresh_proc(item):
+        hist, layout = item
         fd, path = tempfile.mkstemp(suffix=".json"); os.close(fd)
         try:
             with open(path, "w") as f:
                 json.dump([hist], f)
             env = dict(os.environ, PYTHONHASHSEED="0")
-            p = subprocess.run([sys.executable, "-W", "ignore", os.path.join(common.VERIF, "harness", "scn_file_worker.py"), path],
+            p = subprocess.run([sys.executable, "-W", "ignore", os.path.join(common.VERIF, "harness", "scn_file_worker.py"), path, layout],
                                capture_output=True, text=True, timeout=300, env=env, cwd=tempfile.gettempdir())
             for line in p.stdout.splitlines():
                 if line.startswith("RESULT "):
@@ -73,10 +77,10 @@ def run(tier, replay_file=None):
             R.add("file_histories_in_fresh_processes")
             if bad:
                 R.violation(bad["clause"], bad)
-    for hist in h3[nfresh:]:
+    for hist, layout in h3[nfresh:]:
         if len(R.violations) >= 20:
             break
-        bad = scn_replay.replay_files(hist)
+        bad = scn_replay.replay_files(hist, layout)
         R.add("traces_validated_against_impl")
         if bad:
             R.violation(bad["clause"], bad)
